@@ -499,7 +499,7 @@ func ruleResetCompleteness(p *Prog, r *Out) {
 		{"GoAway", []string{"(*GoAway).Reset"}}, {"WindowUpdate", []string{"(*WindowUpdate).Reset"}},
 		{"HeaderField", []string{"(*HeaderField).Reset"}},
 		{"Stream", []string{"NewStream", "(*serverConn).createStream"}},
-		{"HPACK", []string{"(*HPACK).Reset", "(*HPACK).releaseDynamic"}},
+		{"HPACK", []string{"(*HPACK).Reset"}}, // releaseDynamic counts through the call Reset makes
 		{"Ctx", []string{"acquireCtx"}},
 	}
 	exempt := map[string]string{
